@@ -291,6 +291,16 @@ def run_check(prop, tier, replay=None):
         step = max(1, len(cases) // 4)
         samples = [{"input": c, "impl": ir, "model": mr} for c, ir, mr in list(zip(cases, impl_res, model_res))[::step][:5]]
 
+    # thorough tier: re-evaluate a shard of the cases INSIDE Coq (vm_compute) against the extracted code's answers,
+    # so that extraction and the OCaml driver are themselves cross-checked
+    coq_shard = None
+    if tier == "thorough" and hasattr(mod, "coq_case") and cases and model_available and not replay:
+        coq_shard = coq_cross_check(prop, mod, cases, model_res)
+        if coq_shard["mismatch"]:
+            path = VERIF / "replays" / ("%s-%d-extraction.json" % (prop, seed))
+            json.dump({"property": prop, "broken": "extracted code disagrees with vm_compute on the same cases", "detail": coq_shard}, open(path, "w"), indent=1)
+            violations.append(("extraction cross-check failed", str(path), True))
+
     # classify disagreements
     (VERIF / "replays").mkdir(exist_ok=True)
     findings = [f for f in load_findings() if f["property"] == prop and f["status"] == "finding"]
@@ -370,6 +380,7 @@ def run_check(prop, tier, replay=None):
         "disagreements_checked": len(disagreements), "known_findings_hit": known_hits,
         "exhaustive": False, "exhaustive_subdomains": exhaustive if isinstance(exhaustive, (dict, list)) else {},
         "proof_ok": proof["ok"],
+        "in_coq_cross_check_of_extraction": coq_shard,
     }
     ev["assumptions"] = getattr(mod, "ASSUMPTIONS", [])
     ev["violations"] = len(violations)
@@ -380,6 +391,34 @@ def run_check(prop, tier, replay=None):
         prop, tier, proof["ok"], proof["discharged"], proof["obligations"], n_eval, len(nontrivial), len(disagreements), len(violations), known_hits, time.time() - t0))
     log("  outcomes: %s" % json.dumps(stats["outcomes"], sort_keys=True))
     return 1 if violations else 0
+
+
+def coq_cross_check(prop, mod, cases, model_res, per_file=400, max_cases=2000):
+    """Writes cases.v shards: each states, as a boolean evaluated by vm_compute inside Coq, that the model applied to the
+    case gives what the extracted OCaml code printed.  Returns counts."""
+    step = max(1, len(cases) // max_cases)
+    picked = [(c, m) for c, m in list(zip(cases, model_res))[::step]]
+    terms = [t for t in (mod.coq_case(c, m) for c, m in picked) if t]
+    d = WORK / ("coqcases-%s" % prop)
+    shutil.rmtree(d, ignore_errors=True)
+    d.mkdir(parents=True)
+    files = []
+    for k in range(0, len(terms), per_file):
+        f = d / ("Cases%d.v" % (k // per_file))
+        f.write_text("From PV Require Import Model.Prelude Model.Bits Model.Sig Model.Matcher Model.Uptime Proofs.CaseEq.\n"
+                     "Definition cases := [\n  %s\n].\nEval vm_compute in forallb %s cases.\n" % (";\n  ".join(terms[k:k + per_file]), mod.COQ_CHECKER))
+        files.append(f)
+    ok = bad = 0
+    procs = [(f, subprocess.Popen("ulimit -s unlimited; timeout 900 coqc -Q %s PV %s" % (COQ, f), shell=True, cwd=d, stdout=subprocess.PIPE, stderr=subprocess.STDOUT, text=True)) for f in files]
+    for f, p in procs:
+        out = p.communicate()[0]
+        if "= true" in out and p.returncode == 0:
+            ok += 1
+        else:
+            bad += 1
+            log("in-Coq cross-check failed for %s: %s" % (f, out[-400:]))
+    shutil.rmtree(d, ignore_errors=True)
+    return {"cases": len(terms), "files": len(files), "files_true": ok, "mismatch": bad}
 
 
 def shrink_case(prop, mod, c, ir, mr, verdict, budget=150):
